@@ -87,6 +87,7 @@ class Run:
         self.counts = {}
         self.notes = []
         self.analysed = set()
+        self.funcs = {}
         self.t0 = time.time()
 
     # ----------------------------------------------------------------- verdicts
@@ -98,14 +99,21 @@ class Run:
             self.analysed.add(ob.func)
         return ob
 
+    def _touch(self, func):
+        if hasattr(func, 'node') and hasattr(func, 'key'):
+            self.funcs[func.key] = func
+
     def ok(self, rule, func, node, slot, found=''):
+        self._touch(func)
         return self._add(Ob(rule, _fname(func), _where(func, node), slot, PASS, found=found))
 
     def bad(self, rule, func, node, slot, expected, found, extra=None):
+        self._touch(func)
         return self._add(Ob(rule, _fname(func), _where(func, node), slot, VIOLATION,
                             expected=expected, found=found, extra=extra))
 
     def unknown(self, rule, func, node, slot, why):
+        self._touch(func)
         return self._add(Ob(rule, _fname(func), _where(func, node), slot, UNRECOGNISED, found=why))
 
     def check(self, cond, rule, func, node, slot, expected, found=None, extra=None):
